@@ -645,6 +645,10 @@ val is_string_params : params -> bool
 
 val mapM_id : 'a1 res list -> 'a1 list res
 
+val depth_scan : z -> z res list -> z res
+
+val all_regular : bool res list -> bool res
+
 val f_purelist_depth : form -> z res
 
 val minmax_fold : (z * z) list -> z * z
